@@ -83,7 +83,8 @@ def replay_file(path):
 
 def run_property(prop, cases, classify=None, technique="", functions=None, bounds=None, outside=None,
                  assumptions=None, jobs=None, timeout_s=120, extra_coverage=None, min_validated=0,
-                 require_canaries=True, solver_kind="z3"):
+                 require_canaries=True, solver_kind="z3", kani=None, level="translation_validation",
+                 pre_violations=None):
     """cases: list of engine.Case.  classify(result) -> known-finding key or None."""
     tier, seed = tier_seed()
     t0 = time.time()
@@ -96,7 +97,7 @@ def run_property(prop, cases, classify=None, technique="", functions=None, bound
     if st_bad:
         sys.stderr.write("INCONCLUSIVE: rewriting front end fails its self-test: %s\n" % st_bad[:3])
         return 2
-    results, wall = E.run_cases(cases, jobs=jobs, timeout_s=timeout_s, progress=500, solver_kind=solver_kind)
+    results, wall = E.run_cases(cases, jobs=jobs, timeout_s=timeout_s, progress=500, solver_kind=solver_kind) if cases else ([], 0.0)
     by_status = collections.Counter(r["status"] for r in results)
     os.makedirs(os.path.join(VERIF, "work"), exist_ok=True)
     with open(os.path.join(VERIF, "work", "%s.results.jsonl" % prop), "w") as f:  # debugging aid, not evidence
@@ -166,6 +167,48 @@ def run_property(prop, cases, classify=None, technique="", functions=None, bound
     if extra_coverage:
         coverage.update(extra_coverage(results))
     rc = 0
+    kani_violations = 0
+    if kani:
+        from . import kani_runner as K
+        names = K.select(prop, tier) if kani is True else list(kani)
+        if flt:
+            names = [n for n in names if flt in n]
+        kres, kbuild = K.run_all(names, jobs=min(12, os.cpu_count() or 4)) if names else ([], 0.0)
+        ok = [r for r in kres if r["status"] == "success" and r.get("covers_satisfied", 0) >= 1]
+        coverage["kani"] = {
+            "harnesses": len(kres), "discharged": len(ok), "build_s": round(kbuild, 1),
+            "cbmc_time_s": round(sum(r.get("cbmc_s", 0) for r in kres), 1),
+            "checks_total": sum(r.get("checks", 0) for r in kres),
+            "cover_properties_satisfied": sum(r.get("covers_satisfied", 0) for r in kres),
+            "rule": "a harness is discharged when Kani reports SUCCESSFUL with unwinding assertions on and at least one kani::cover! (reachability witness) satisfied",
+            "stubs": "ASCII stubs for core::str::Chars::{next,count} and str::trim_start_matches in the harnesses marked stubs=true (kani/src/stubs.rs); each assumes byte < 128",
+            "per_harness": [{"harness": r["name"], "status": r["status"], "wall_s": r["wall_s"], "checks": r.get("checks"),
+                             "covers": "%s/%s" % (r.get("covers_satisfied"), r.get("covers")), "stubs": K.HARNESSES[r["name"]]["stubs"]} for r in kres],
+            "tool": "kani 0.68.0 / CBMC 6.11.0 (cadical)",
+        }
+        coverage["obligations"] = coverage.get("obligations", 0) + len(kres)
+        coverage["discharged"] = coverage.get("discharged", 0) + len(ok)
+        coverage["evaluations"] = coverage.get("evaluations", 0) + len(kres)
+        coverage["distinct_nontrivial"] = coverage.get("distinct_nontrivial", 0) + len(ok)
+        if not cases:
+            coverage["samples"] = [{"harness": r["name"], "status": r["status"], "checks": r.get("checks"), "wall_s": r["wall_s"]} for r in kres[:5]]
+            coverage["programs"] = 0
+        for r in kres:
+            if r["status"] == "failed":
+                reproduced, rec = K.replay(r["name"])
+                rec["failed_checks"] = r.get("failed_checks")
+                rec["spec_verdict"] = "harness assertion holds"
+                path = save_replay(prop, "kani-" + r["name"], dict(rec, kind="kani"))
+                if reproduced:
+                    print("VIOLATION property=%s replay=%s" % (prop, path))
+                    sys.stderr.write("  kani harness %s: %s\n" % (r["name"], r.get("failed_checks")))
+                    kani_violations += 1
+                else:
+                    sys.stderr.write("INCONCLUSIVE kani harness %s failed but concrete playback did not reproduce natively: %s\n" % (r["name"], r.get("failed_checks")))
+                    rc = 2
+            elif r not in ok:
+                sys.stderr.write("INCONCLUSIVE kani harness %s: %s (covers %s/%s)\n%s\n" % (r["name"], r["status"], r.get("covers_satisfied"), r.get("covers"), r.get("tail", "")[-300:]))
+                rc = 2
     for key, r, path in known_hits:
         pass
     for key in sorted(set(k for k, _, _ in known_hits)):
@@ -182,14 +225,19 @@ def run_property(prop, cases, classify=None, technique="", functions=None, bound
     if validated < min_validated:
         sys.stderr.write("INCONCLUSIVE: only %d concrete cross-validation points (need %d)\n" % (validated, min_validated))
         rc = 2
-    if violations:
+    for i, rec in enumerate(pre_violations or []):
+        path = save_replay(prop, "%s-%d" % (rec.get("kind", "check"), i), rec)
+        print("VIOLATION property=%s replay=%s" % (prop, path))
+        sys.stderr.write("  %s\n" % json.dumps(rec)[:400])
+        kani_violations += 1
+    if violations or kani_violations:
         rc = 1
         for r, path, key in violations[:20]:
             print("VIOLATION property=%s replay=%s" % (prop, path))
             sys.stderr.write("  case %s%s: %s\n" % (r["cid"], " key=" + key if key else "", (r.get("detail") or "")[:400]))
     total = time.time() - t0
-    write_evidence(prop, tier, seed, "translation_validation", coverage,
-                   assumptions or [], total, len(violations))
+    write_evidence(prop, tier, seed, level, coverage,
+                   assumptions or [], total, len(violations) + kani_violations)
     sys.stderr.write("%s: %d cases, %s, %d cross-validated runs, solver %.1fs, wall %.1fs, exit %d\n" % (
         prop, len(results), dict(by_status), validated, coverage["solver_time_s"], total, rc))
     return rc
